@@ -230,6 +230,19 @@ func (fr *Frame) ghostCall(i *ssa.Call, kind string, args []Val, st *State, g Te
 			}
 		}
 		fr.regs[i] = TV{T: Or(alts...)}
+	case "SameText":
+		// two strings with the same length and the same bytes are the same string.  Where the
+		// clause is being PROVED (the function's own postcondition) the goal is the extensional
+		// form, which follows from the byte-level axioms of concatenation whatever the shape of
+		// the two ropes; where it is ASSUMED (at a call site) it is plain equality.
+		a, b := x.t(args[0], st), x.t(args[1], st)
+		if x.proving {
+			k := fmt.Sprintf("k!st%d", x.nextID())
+			all := fmt.Sprintf("(forall ((%s Int)) (=> (and (<= 0 %s) (< %s %s)) (= (sat %s %s) (sat %s %s))))", k, k, k, slen(a).S, a.S, k, b.S, k)
+			fr.regs[i] = TV{T: And(Eq(slen(a), slen(b)), Term{all, SBool})}
+		} else {
+			fr.regs[i] = TV{T: Eq(a, b)}
+		}
 	case "SameFloat":
 		fr.regs[i] = TV{T: Eq(x.t(args[0], st), x.t(args[1], st))}
 	case "B2I":
